@@ -288,8 +288,29 @@ def sync_tree(root, files):
                 os.remove(p)
 
 
-def corpus_files(corpus, cases, n_shards, repo="/repo", verif="/verif", features=("serde-json-impl",), exclude=(), extra_deps=""):
+def alias_crate(text, alias):
+    """The same Rust source for a crate that knows ts-rs only under the name `alias`: every derive of TS
+    gets `#[ts(crate = "<alias>")]` and paths through `ts_rs::` go through the alias."""
+    import re
+    text = re.sub(r'(#\[derive\(TS\b[^\]]*\)\])', lambda m: m.group(1) + f'\n#[ts(crate = "{alias}")]', text)
+    return text.replace("ts_rs::", alias + "::")
+
+
+def corpus_files(corpus, cases, n_shards, repo="/repo", verif="/verif", features=("serde-json-impl",), exclude=(), extra_deps="",
+                 crate_alias=None):
     """Files of the shard crates `<corpus>_<i>` (paths relative to the corpus directory)."""
+    files, index, crates = _corpus_files(corpus, cases, n_shards, repo, verif, features, exclude, extra_deps)
+    if crate_alias:
+        for rel in list(files):
+            if rel.endswith("Cargo.toml"):
+                files[rel] = files[rel].replace("ts-rs = { path", crate_alias + ' = { package = "ts-rs", path')
+            elif rel.endswith(".rs"):
+                files[rel] = alias_crate(files[rel], crate_alias)
+    files["index.json"] = json.dumps(index)
+    return files, crates
+
+
+def _corpus_files(corpus, cases, n_shards, repo, verif, features, exclude, extra_deps):
     files = {}
     shards = [[] for _ in range(n_shards)]
     for i, c in enumerate(cases):
@@ -324,8 +345,7 @@ serde_json = "={serde_json_ver}"
         files[f"{d}/src/main.rs"] = ("#![allow(dead_code, unused_imports, unused_variables, non_snake_case, non_camel_case_types, clippy::all)]\n"
                                      "mod prelude;\nmod cases {\n" + "\n".join(mods) + "\n}\n"
                                      "fn main() {\n    let mut ctx = e2rt::Ctx::from_args();\n    " + "\n    ".join(runs) + "\n    ctx.finish();\n}\n")
-    files["index.json"] = json.dumps(index)
-    return files, [f"{corpus}_{si}" for si in range(n_shards)]
+    return files, index, [f"{corpus}_{si}" for si in range(n_shards)]
 
 
 def root_manifest(members):
